@@ -346,6 +346,24 @@ theorem enforceSequence_restrict_iff (sq : Seq) (a b : Nat) (st : Int) (hst : st
     rw [C08.win_getElem? t a (b - a) k hk'] at h1
     exact ⟨n, by simpa using h4, ((hsingle (a + k) n).2 h1).symm⟩
 
+/-- **AvoidChanges (no budget, forward / unstranded region)**: a sequence satisfies the restriction the
+    constraint hands to the mutation space (built on the construction-time sequence `s0`) **iff** the
+    constraint initialised on `s0` passes on it — "enforced by nucleotide restrictions" is sound and exact -/
+theorem avoidChanges_restrict_iff (a b : Nat) (st : Int) (hst : st ≠ -1) (s0 t : Seq) (hab : a ≤ b)
+    (hb0 : b ≤ s0.length) (hb : b ≤ t.length) (tg : Seq) (rs : List Space.Restriction)
+    (hr : BSpec.restrict (K := Rat) (.avoidChanges 0 tg (.loc ⟨a, b, st⟩)) s0 = some rs) :
+    (∀ r ∈ rs, win t r.start (r.stop - r.start) ∈ r.variants) ↔
+      C08.PassesB (.avoidChanges 0 (win s0 a (b - a)) (.loc ⟨a, b, st⟩)) t := by
+  have hlen : (win s0 a (b - a)).length = b - a := by simp only [win, List.length_take, List.length_drop]; omega
+  rw [C08.avoidChanges_passes_iff (win s0 a (b - a)) a b st hst t hab hb hlen]
+  have e0 : Score.eq (0 : Rat) (Score.zero : Rat) = true := by decide
+  simp only [BSpec.restrict, e0, Bool.not_true, Bool.false_eq_true, if_false, Option.some.injEq] at hr
+  rw [← hr]
+  simp only [List.mem_singleton, forall_eq, Int.toNat_natCast, C15.pySlice_nat' s0 a b hab hb0]
+  constructor
+  · intro h; simpa [win] using h
+  · intro h; simpa [win] using h
+
 /-- the construction cannot fail on restrictions inside the sequence … the two `crash` branches of the model
     (a `None` under a restriction, `merge_with` on an empty set) are unreachable: stated as what a successful step
     needs, the fold never meets them because `Full` is an invariant (see `Fold.applyRestriction_spec`) -/
